@@ -369,10 +369,18 @@ func GetLatestBundle(repo string, stores context2.Stores) (string, error) {
 		return "", fmt.Errorf("no bundles uploaded to repo: %s", repo)
 	}
 
-	apc, err := model.GetArchivePathComponents(ks[len(ks)-1])
-	if err != nil {
-		return "", err
+	// keys are sorted: walk back to the most recent bundle with a descriptor.
+	// Index files without a descriptor are leftovers from an interrupted (or ongoing) upload.
+	for i := len(ks) - 1; i >= 0; i-- {
+		apc, err := model.GetArchivePathComponents(ks[i])
+		if err != nil {
+			return "", err
+		}
+
+		if ks[i] == model.GetArchivePathToBundle(repo, apc.BundleID) {
+			return apc.BundleID, nil
+		}
 	}
 
-	return apc.BundleID, nil
+	return "", fmt.Errorf("no bundles uploaded to repo: %s", repo)
 }
